@@ -89,6 +89,8 @@ def po2(facts, rep):
             elif eng_po.orphan_match(key, AUDIT, set(facts.bodies)):
                 k0 = eng_po.orphan_match(key, AUDIT, set(facts.bodies))
                 rep.audited(rule, key, o['where'], 'arithmetic of the removed function %s, now written in its caller: %s' % (k0.split('|')[0], AUDIT[k0]))
+            elif eng_po.implied(key, AUDIT, o):
+                rep.audited(rule, key, o['where'], eng_po.implied(key, AUDIT, o)[1])
             else:
                 rep.bad(rule, key, o['where'], 'a %s obligation reachable from untrusted input is neither discharged nor '
                                                'audited: %s' % (o['kind'], o['detail']))
